@@ -7,6 +7,7 @@ import (
 	"encoding/json"
 	"fmt"
 	"sort"
+	"strings"
 	"testing"
 	"time"
 
@@ -142,10 +143,12 @@ func decodeOracle(c c07Case) (*vstat.Failure, c07Info) {
 			if at.Kind == "LOST" && at.A == nil && model.LastToken(at.Path) == "items" {
 				// K2 only if the input holds a JSON scalar at that position
 				var in any
-				if json.Unmarshal([]byte(c.Text), &in) == nil {
+				dec := json.NewDecoder(strings.NewReader(c.Text))
+				dec.UseNumber() // (number tokens such as 1e400 do not fit a float64)
+				if dec.Decode(&in) == nil {
 					if iv, err := model.GetIn(in, at.Path); err == nil {
 						switch iv.(type) {
-						case string, float64, bool:
+						case string, json.Number, float64, bool:
 							known = "K2"
 						}
 					}
